@@ -154,7 +154,7 @@ Proof. exact (iterload_xdr_skip_all_refused junk). Qed.
    the checkers have exactly the semantics of the model; the per-run lemmas  check <term> = true  are in Gen *)
 Theorem reflected_reader_is_model : forall r fm, classify r = Some fm ->
   (forall (f : list A) s n str ai, 1 <= str -> reader_sem r f s n str ai = rd junk fm f s n str ai) /\
-  (forall (f : list A) s k, reader_seek r f s k = sk fm f s k).
+  (forall (f : list A) s k, cnt s = pos s -> reader_seek r f s k = sk fm f s k).
 Proof. exact (classify_sound junk). Qed.
 
 Theorem reflected_loader_is_model : forall d r fm, check_loader d = true -> classify r = Some fm ->
